@@ -43,6 +43,9 @@ func runC06(c *an.Ctx) {
 	var saver, loader *ssa.Function
 	nOps := 0
 	for _, fn := range p.FuncsIn("server") {
+		if isAttributedHelper(p, fn) {
+			continue
+		}
 		ops := serverMapOps(p, fn, "GCAServer")
 		touches := false
 		for _, op := range ops {
@@ -157,6 +160,9 @@ func findAuthSaver(p *an.Program) *ssa.Function {
 		if construction[fn] {
 			continue
 		}
+		if isAttributedHelper(p, fn) {
+			continue
+		}
 		for _, op := range serverMapOps(p, fn, "GCAServer") {
 			if isDeviceMap(op.field) {
 				return fn
@@ -218,7 +224,7 @@ func saverStructure(c *an.Ctx, fn *ssa.Function, isLoader bool) {
 	var EA *an.Term
 	for _, op := range ops {
 		if op.field == "equipment" && op.kind == "insert" {
-			EA = fi.Term(op.val)
+			EA = op.valT
 		}
 	}
 	if EA == nil {
@@ -350,7 +356,7 @@ func saverStructure(c *an.Ctx, fn *ssa.Function, isLoader bool) {
 		var valOK bool
 		for _, op := range ops {
 			if op.field == "equipmentShortID" && op.kind == "insert" {
-				valOK = fi.Term(op.val).Key() == idT.Key() && op.in.Block() == insBlock
+				valOK = op.valT != nil && op.valT.Key() == idT.Key() && op.in.Block() == insBlock
 			}
 		}
 		c.Check(okI && valOK, "INVERSE", fn, fn.Pos(), an.KeyOf(fn, who+":index-insert"), "the public-key index receives record.PublicKey -> record.ShortID together with the insertion of the record", "key "+short(k.Key()))
